@@ -42,7 +42,9 @@ class RuleSpec:
 
     def rule_text(self, rev):
         s = self.pattern(rev)
-        if self.logic:
+        if self.logic and "." in self.logic:
+            s += " %logic=" + self.logic
+        elif self.logic:
             s += " %logic=common." + self.logic
         if self.ordered:
             s += " %ordered"
@@ -149,6 +151,8 @@ def gen_rulebook(ch, vendor, rev, exit_word, unique_heads=False, allow=None):
                 if under_ordered and logic in ("permanent", "ignore_changes"):
                     logic = None
                 neg = ("neg" in allow) and (not ordd) and ch.draw(8, "neg") == 0
+                if "force_commit" in allow and logic is None and not ordd and not neg and not tail and ch.draw(5, "dynfc") == 0:
+                    logic = "simlogic.dyn_force_commit"
                 r = RuleSpec(uid(), head(False, used), nkeys=nk, tail=tail, logic=logic, ordered=ordd, neg=neg)
                 if neg and "twins" in allow and logic is None and ch.draw(2, "twin") == 0:
                     # the positive form of the same setting is a rule of its own ('x *' next to 'undo x *')
